@@ -170,6 +170,25 @@ func streamByName(name string) *streamDef {
 			}
 			return nil, false
 		}}
+	case "fmp4-ll":
+		// a low-latency fMP4 playlist (CAN-BLOCK-RELOAD + PRELOAD-HINT): the client alternates between the
+		// hinted part (clientStreamDownloader.downloadPreloadHint) and a playlist reload; never ends
+		return &streamDef{name: name, nreq: 0, nsamples: 0, get: func(p string, reloads int) ([]byte, bool) {
+			if p == "/index.m3u8" {
+				return []byte("#EXTM3U\n#EXT-X-VERSION:9\n#EXT-X-TARGETDURATION:1\n" +
+					"#EXT-X-SERVER-CONTROL:CAN-BLOCK-RELOAD=YES,PART-HOLD-BACK=0.3\n#EXT-X-PART-INF:PART-TARGET=0.1\n" +
+					"#EXT-X-MEDIA-SEQUENCE:0\n#EXT-X-MAP:URI=\"init.mp4\"\n#EXTINF:1,\nold.mp4\n" +
+					fmt.Sprintf("#EXT-X-PRELOAD-HINT:TYPE=PART,URI=\"part%d.mp4\"\n", reloads)), true
+			}
+			if p == "/init.mp4" {
+				return fmp4VideoInit(), true
+			}
+			var n int
+			if _, err := fmt.Sscanf(p, "/part%d.mp4", &n); err == nil {
+				return fmp4VideoSeg(uint32(n), uint64(90000+n*2*tick), 2), true
+			}
+			return nil, false
+		}}
 	case "ts-live":
 		// a live playlist that gains one segment at every reload; the client starts 3 from the end
 		return &streamDef{name: name, nreq: 0, nsamples: 0, get: func(p string, reloads int) ([]byte, bool) {
